@@ -21,18 +21,27 @@ pub struct SimOut {
     pub ids: HashMap<Ty, u32>,
 }
 
-/// `T::Identity` of scale-info applied at the top level only; aliases expanded everywhere.
+/// `T::Identity` of scale-info: ONE step at the top level (the identity of `Box<Vec<T>>` is
+/// `Vec<T>`, not `[T]`: scale-info registers both and they get different ids); aliases expanded
+/// everywhere. The result is the interning key.
 pub fn identity_key(t: &Ty) -> Ty {
-    let t = expand_aliases(t);
-    fn top(t: Ty) -> Ty {
-        match t {
-            Ty::Box(x) => top(*x),
-            Ty::VecDeque(x) => Ty::Vec(x),
-            Ty::Phantom(_) => Ty::Phantom(Ty::Tuple(vec![]).b()),
-            other => other,
-        }
+    match expand_aliases(t) {
+        Ty::Box(x) => *x,
+        Ty::Vec(x) | Ty::VecDeque(x) => Ty::Slice(x),
+        Ty::Str => Ty::StrSlice,
+        Ty::Phantom(_) => Ty::Phantom(Ty::Tuple(vec![]).b()),
+        other => other,
     }
-    top(t)
+}
+
+/// What `type_info()` of a key delegates to (wrappers forward all the way down).
+fn delegate(t: &Ty) -> Ty {
+    match t {
+        Ty::Box(x) => delegate(x),
+        Ty::Vec(x) | Ty::VecDeque(x) => Ty::Slice(x.clone()),
+        Ty::Str => Ty::StrSlice,
+        other => other.clone(),
+    }
 }
 
 pub fn expand_aliases(t: &Ty) -> Ty {
@@ -41,7 +50,8 @@ pub fn expand_aliases(t: &Ty) -> Ty {
     let eb = |t: &Ty| std::boxed::Box::new(expand_aliases(t));
     match t {
         Alias(_, inner) => e(inner),
-        Prim(_) | Str | Marker(_) | NonZero(_) | Duration | BitVec(..) | CowStr | Param(_) | Assoc(..) => t.clone(),
+        Prim(_) | Str | Marker(_) | NonZero(_) | Duration | BitVec(..) | CowStr | Param(_) | Assoc(..) | StrSlice => t.clone(),
+        Slice(t) => Slice(eb(t)),
         Def(d, a) => Def(*d, a.iter().map(e).collect()),
         Vec(t) => Vec(eb(t)),
         VecDeque(t) => VecDeque(eb(t)),
@@ -61,8 +71,11 @@ pub fn expand_aliases(t: &Ty) -> Ty {
     }
 }
 
-fn is_phantom(t: &Ty) -> bool {
-    matches!(identity_key(t), Ty::Phantom(_))
+/// scale-info filters a field / tuple member iff its MetaType id is that of `PhantomData<()>`,
+/// i.e. the type is literally a `PhantomData<_>` (a `Box<PhantomData<T>>` is NOT filtered: its
+/// identity is `PhantomData<T>`, another TypeId).
+pub fn is_phantom(t: &Ty) -> bool {
+    identity_key(t) == Ty::Phantom(Ty::Tuple(vec![]).b())
 }
 
 pub fn prim_def(p: Prim) -> TypeDefPrimitive {
@@ -122,16 +135,30 @@ impl<'p> Sim<'p> {
         id
     }
 
+    /// Fields of a built-in impl go through scale-info's FieldsBuilder, which drops PhantomData.
+    fn builtin_fields(&mut self, fs: &[(Option<&str>, Ty, Option<&str>)]) -> Vec<Field<PortableForm>> {
+        let mut out = Vec::new();
+        for (name, ty, tn) in fs {
+            if is_phantom(ty) {
+                continue;
+            }
+            let id = self.register(ty);
+            out.push(field(*name, id, *tn, &[]));
+        }
+        out
+    }
+
     fn param(&mut self, name: &str, t: Option<&Ty>) -> TypeParameter<PortableForm> {
         TypeParameter::new_portable(name.to_string(), t.map(|t| self.register(t).into()))
     }
 
     fn type_info(&mut self, key: &Ty, id: u32) -> Type<PortableForm> {
         let none = Path::<PortableForm>::from_segments_unchecked(Vec::<String>::new());
+        let key = &delegate(key);
         match key {
             Ty::Prim(p) => mk_type(none, vec![], TypeDef::Primitive(prim_def(*p)), vec![]),
-            Ty::Str => mk_type(none, vec![], TypeDef::Primitive(TypeDefPrimitive::Str), vec![]),
-            Ty::Vec(t) => {
+            Ty::StrSlice => mk_type(none, vec![], TypeDef::Primitive(TypeDefPrimitive::Str), vec![]),
+            Ty::Slice(t) => {
                 let e = self.register(t);
                 mk_type(none, vec![], TypeDef::Sequence(TypeDefSequence::new(e.into())), vec![])
             }
@@ -180,27 +207,27 @@ impl<'p> Sim<'p> {
             }
             Ty::Option(t) => {
                 let params = vec![self.param("T", Some(t))];
-                let some = self.register(t);
+                let some = self.builtin_fields(&[(None, (**t).clone(), None)]);
                 mk_type(
                     path(&["Option"]),
                     params,
                     TypeDef::Variant(TypeDefVariant::new(vec![
                         Variant::new("None".into(), vec![], 0, vec![]),
-                        Variant::new("Some".into(), vec![field(None, some, None, &[])], 1, vec![]),
+                        Variant::new("Some".into(), some, 1, vec![]),
                     ])),
                     vec![],
                 )
             }
             Ty::Result(a, b) => {
                 let params = vec![self.param("T", Some(a)), self.param("E", Some(b))];
-                let ok = self.register(a);
-                let err = self.register(b);
+                let ok = self.builtin_fields(&[(None, (**a).clone(), None)]);
+                let err = self.builtin_fields(&[(None, (**b).clone(), None)]);
                 mk_type(
                     path(&["Result"]),
                     params,
                     TypeDef::Variant(TypeDefVariant::new(vec![
-                        Variant::new("Ok".into(), vec![field(None, ok, None, &[])], 0, vec![]),
-                        Variant::new("Err".into(), vec![field(None, err, None, &[])], 1, vec![]),
+                        Variant::new("Ok".into(), ok, 0, vec![]),
+                        Variant::new("Err".into(), err, 1, vec![]),
                     ])),
                     vec![],
                 )
@@ -211,13 +238,8 @@ impl<'p> Sim<'p> {
                     _ => Ty::Str,
                 };
                 let params = vec![self.param("T", Some(&inner))];
-                let f = self.register(&inner);
-                mk_type(
-                    path(&["Cow"]),
-                    params,
-                    TypeDef::Composite(TypeDefComposite::new(vec![field(None, f, None, &[])])),
-                    vec![],
-                )
+                let fs = self.builtin_fields(&[(None, inner.clone(), None)]);
+                mk_type(path(&["Cow"]), params, TypeDef::Composite(TypeDefComposite::new(fs)), vec![])
             }
             Ty::BTreeMap(k, v) => {
                 let params = vec![self.param("K", Some(k)), self.param("V", Some(v))];
@@ -281,7 +303,12 @@ impl<'p> Sim<'p> {
                 vec!["PhantomData placeholder, this type should be filtered out".into()],
             ),
             Ty::Marker(j) => mk_type(
-                path(&[self.prog.krate.as_str(), &format!("M{j}")]),
+                {
+                    let mut segs = vec![self.prog.krate.clone()];
+                    segs.extend(self.prog.prefix.iter().cloned());
+                    segs.push(format!("M{j}"));
+                    Path::from_segments_unchecked(segs)
+                },
                 vec![],
                 TypeDef::Composite(TypeDefComposite::new(vec![])),
                 vec![],
@@ -316,7 +343,7 @@ impl<'p> Sim<'p> {
                 };
                 mk_type(p, params, typedef, def.docs.clone())
             }
-            Ty::Box(_) | Ty::VecDeque(_) | Ty::Alias(..) => unreachable!("normalised away: {key:?}"),
+            Ty::Box(_) | Ty::VecDeque(_) | Ty::Vec(_) | Ty::Str | Ty::Alias(..) => unreachable!("delegated away: {key:?}"),
             Ty::Param(_) | Ty::Assoc(..) => panic!("open type registered: {key:?}"),
         }
     }
@@ -394,13 +421,13 @@ fn consulted_positions_in(prog: &Program, t: &Ty, args: Option<&[Ty]>, out: &mut
         }
         Phantom(_) => {}
         Param(_) => out.push((t.clone(), true)),
-        Prim(_) | Str | Marker(_) | NonZero(_) | Duration | CowStr | Assoc(..) => out.push((t.clone(), false)),
+        Prim(_) | Str | Marker(_) | NonZero(_) | Duration | CowStr | Assoc(..) | StrSlice => out.push((t.clone(), false)),
         BitVec(s, _) => {
             out.push((t.clone(), false));
             out.push((Prim(*s), false));
         }
         Vec(x) | VecDeque(x) | Array(x, _) | Option(x) | Cow(x) | BTreeSet(x) | BinaryHeap(x) | Range(x)
-        | RangeInclusive(x) | Compact(x) => {
+        | RangeInclusive(x) | Compact(x) | Slice(x) => {
             out.push((t.clone(), false));
             consulted_positions(prog, x, out);
         }
@@ -474,6 +501,30 @@ fn cf_inst(prog: &Program, sim: &SimOut, d: usize, args: &[Ty]) -> Option<String
         }
         if wrapped && matches!(top, Ty::Param(_)) {
             return Some("CF-3: parameter directly under a transparent wrapper".into());
+        }
+        // CF-3 at depth: scale-info's identity is ONE step, so the id of a nested `Box<T>` equals
+        // the id of `T` only when T's own identity is trivial and there is exactly one wrapper
+        // (`Box<String>` is registered as `String`, not `str`; `Box<Box<T>>` as `Box<T>`)
+        let mut deep: Option<String> = None;
+        f.ty.walk(&mut |t| {
+            if let Ty::Box(x) | Ty::Cow(x) = t {
+                let mut inner: &Ty = x;
+                let mut wrappers = 1;
+                while let Ty::Box(y) | Ty::Cow(y) = inner {
+                    inner = y;
+                    wrappers += 1;
+                }
+                if let Ty::Param(i) = inner {
+                    let arg = expand_aliases(&args[*i]);
+                    let trivial = identity_key(&arg) == arg;
+                    if wrappers >= 2 || !trivial {
+                        deep = Some(format!("CF-3: parameter {i} under {wrappers} transparent wrapper(s) with an argument whose identity is not itself"));
+                    }
+                }
+            }
+        });
+        if deep.is_some() {
+            return deep;
         }
         let mut pos = Vec::new();
         consulted_positions_in(prog, &f.ty, Some(args), &mut pos);
